@@ -515,7 +515,10 @@ class Segmentation(Unit):
 
     def setup(self, I):
         install_io_models(I)
-        keys = loop_keys(raw(PacketReactor, 'read_packet'), R_)
+        from .common import reachable_loops
+        keys = reachable_loops(raw(PacketReactor, 'read_packet'), PacketReactor)
+        if len(keys) > 1:
+            raise Unsupported('contract does not fit the code any more: %d while loops reachable from read_packet' % len(keys))
         if not keys:
             raise Unsupported('contract does not fit the code any more: read_packet has no while loop any more')
         unit = self
@@ -527,13 +530,44 @@ class Segmentation(Unit):
                 raise Unsupported('reassembly contract: expected exactly one PacketBuffer local at the loop head, found %d' % len(bufs))
             return bufs[0]
 
-        def inv(I_, frame):
+        # Auxiliary invariants for integer locals that cache "bytes received" / "bytes missing" (found by template at loop
+        # entry, assumed at the head, and required to be re-established by the body - if one is not inductive the
+        # contract does not fit and the unit is undecided; it is never reported as a violation by itself).
+        TEMPLATES = {'received': lambda c: c, 'missing': lambda c: unit.N - c}
+
+        def base_inv(I_, frame):
             pd = the_buffer(frame)
             content = I_.call(I_.getattr_(pd, 'get_writable'))
             s = unit.stream
             return And(SBytes.of(content) == SBytes([slice_blob(s.rest, 0, s.cursor)]) if not _is_zero(s.cursor) else
                        SBytes.of(content).length() == 0,
                        s.cursor >= 0, s.cursor <= unit.N, s.cursor <= s.total)
+
+        def aux(frame):
+            c = unit.stream.cursor
+            return [(name, frame.locals[name] == TEMPLATES[t](c)) for name, t in sorted(unit.aux.items()) if name in frame.locals]
+
+        def inv(I_, frame):
+            E = I_.E
+            unit.inv_calls += 1
+            if unit.inv_calls == 1:                       # loop entry: find the cached counters
+                unit.aux = {}
+                c = unit.stream.cursor
+                assigned = getattr(I_.loop_specs[keys[0]], 'assigned', ())
+                for name, v in frame.locals.items():
+                    if name in assigned and isinstance(v, (SInt, int)) and not isinstance(v, bool):
+                        for t, f in TEMPLATES.items():
+                            if E.implied(v == f(c)):
+                                unit.aux[name] = t
+                                break
+                return base_inv(I_, frame)
+            if unit.inv_calls == 2:                       # loop head: assumed together with the base invariant
+                return And(base_inv(I_, frame), *[cond for _, cond in aux(frame)])
+            for name, cond in aux(frame):                 # after the body
+                if not E.implied(cond):
+                    raise Unsupported('reassembly contract: the local %r looked like a cached byte count at loop entry but the '
+                                      'loop body does not maintain it - no contract for this loop shape' % name)
+            return base_inv(I_, frame)
 
         def variant(I_, frame):
             return unit.N - unit.stream.cursor
@@ -544,6 +578,8 @@ class Segmentation(Unit):
             unit.stream.cursor = c
             pd = the_buffer(frame)
             pd.__dict__['bytes'] = SymBytesIO(I_, SBytes([slice_blob(unit.stream.rest, 0, c)]))
+            for name, t in unit.aux.items():
+                frame.locals[name] = E.new_int('%s@head' % name)      # constrained by the auxiliary invariant
         I.loop_specs[keys[0]] = LoopSpec('reassembly', inv, havoc, variant)
 
         def varint_read(I_, cls, file_object):
@@ -565,6 +601,7 @@ class Segmentation(Unit):
     def run(self, I):
         E = I.E
         self.N = E.new_int('length', 0, (1 << 35) - 1)
+        self.inv_calls, self.aux = 0, {}
         total = E.new_int('total', 0, None)        # bytes the server sends before it stops (any value: C15)
         self.stream = ShortReadStream(I, total)
         try:
